@@ -153,7 +153,7 @@ def tree(events, voids=(), html_void_style=True):
         k = e[0]
         if k == 'open':
             name, attrs, selfclosed = e[1], e[2], e[3]
-            node = {'d': len(stack), 'n': name, 'a': [list(a) for a in attrs], 't': '', 'kids': 0}
+            node = {'d': len(stack), 'n': name, 'a': [list(a) for a in attrs], 't': '', 'kids': 0, 'sc': bool(selfclosed)}
             if stack:
                 out[stack[-1]]['kids'] += 1
             out.append(node)
